@@ -17,7 +17,7 @@ import shutil
 from hypothesis import strategies as st
 
 from vlib import common, poolcheck, values
-from vlib.checks import c01
+from vlib.checks import c01, c04
 
 
 READ_CMDS = ["dump ra", "dump cur", "dump vis", "dump tag", "sizes", "events0", "checked"]
@@ -55,7 +55,7 @@ def run(t, budget=1.0):
         entry, mi, L = pc.draw_target(data)
         M = entry.model
         cfgs = entry.status["configs"]
-        family = data.draw(st.sampled_from(["read", "read", "write", "hostile"]))
+        family = data.draw(st.sampled_from(["read", "read", "write", "hostile", "cursor"]))
         res.cls("family_" + family)
         if family in ("read", "hostile"):
             vals = data.draw(values.level_values(L, max_entries=3, inflate=data.draw(st.booleans())))
@@ -106,6 +106,39 @@ def run(t, budget=1.0):
                             "[%s] %s on a well-formed, exactly fitting image of message %s: %s" % (cfg, cmd, L.name, resp[:200]))
             if len(res.samples) < 5 and (len(res.samples) < 2 or res.evaluations % 1999 < 300):
                 res.sample({"schema": entry.dir.split("/")[-1], "message": L.name, "family": family, "command": cmd, "full_size": full, "lengths_tried": len(ns)})
+            return
+        if family == "cursor":
+            # a legal cursor call sequence (all wrappers, reads and writes; see C04) on the image truncated at every n
+            vals = data.draw(values.level_values(L, max_entries=2, inflate=data.draw(st.booleans())))
+            img, size = M.encode_message(L, vals, background=0x33)
+            lay = c04.layout_level(M, L, vals, M.header.size, vals.get("extra", 0))
+            sq = c04.Seq(M, img)
+            sq.tok.append("I")
+            sq.cur = M.header.size
+            sq.c()
+            c04.root_walk(data, sq, L, vals, lay)
+            toks = " ".join(sq.tok)
+            full = len(img)
+            ns = list(range(0, full + 1)) if full <= 200 else sorted(set([0, 1, full - 1, full] + data.draw(st.lists(st.integers(0, full), min_size=40, max_size=40))))
+            for n in ns:
+                cfg = cfgs[n % len(cfgs)]
+                line = "cursor %d %s %s" % (mi, img[:n].hex() or "-", toks)
+                resp = pc.call(entry, cfg, line)
+                res.count()
+                oc = outcome(resp)
+                if oc == "ASSERT" or n == full:
+                    res.nontriv(common.text_hash(entry.dir, "cursor", toks, str(n)))
+                bad = None
+                if oc in ("SEGV", "DIED") or oc not in ("OK", "ASSERT"):
+                    bad = "silent-out-of-bounds:cursor:truncated"
+                elif "XERR(write before the buffer)" in resp:
+                    bad = "canary-damaged:cursor"
+                elif n == full and oc != "OK":
+                    bad = "spurious-assertion:cursor"
+                if bad:
+                    pc.fail(bad, entry, {"cmd": line, "config": cfg, "n": n, "full": full, "expect": "OK-or-ASSERT" if n < full else "OK", "actual": resp[:300]},
+                            "[%s] cursor sequence `%s` on message %s bound to %d of %d bytes: %s" % (cfg, toks[:120], L.name, n, full, resp[:200]))
+            res.cls("cmd_cursor")
             return
         # ---- write family: encode script valid for the full image, buffer truncated at every n
         pat = data.draw(st.sampled_from([0x00, 0xFF, 0xA5]))
